@@ -554,7 +554,8 @@ func c8run(r *report.Run) {
 		}
 		var cur []item
 		n := 0
-		for _, prog := range g.blocks(size, 0, depth) {
+		// the top layer is streamed (blocks of 1..2 statements of total size `size`), never materialised
+		emit := func(prog []*c8stmt) {
 			cur = append(cur, item{c8body(prog), c8ref(prog)})
 			n++
 			if len(cur) == 400 {
@@ -562,6 +563,16 @@ func c8run(r *report.Run) {
 				cur = nil
 				if len(batches) >= 256 {
 					exec()
+				}
+			}
+		}
+		for _, s1 := range g.stmtsMemo(size, 0, depth) {
+			emit([]*c8stmt{s1.s})
+		}
+		for a := 1; a < size && !r.Expired(); a++ {
+			for _, s1 := range g.stmtsMemo(a, 0, depth) {
+				for _, s2 := range g.stmtsMemo(size-a, s1.nctx, depth) {
+					emit([]*c8stmt{s1.s, s2.s})
 				}
 			}
 		}
